@@ -546,6 +546,9 @@ func (e *Effects) fixpoint() {
 			for _, a := range fc.Ghost {
 				g[a.Var] = true
 			}
+			for _, a := range fc.GhostInit {
+				g[a.Var] = true
+			}
 		}
 		e.ghostW[f] = g
 	}
@@ -694,11 +697,8 @@ func (e *Effects) CheckModifies(f *ssa.Function, fc *FuncContract) []string {
 	}
 	decl := e.declClasses(fc, f)
 	var bad []string
-	for c := range e.total[f].Classes {
-		if !decl[c] {
-			bad = append(bad, c)
-		}
-	}
+	// heap classes are checked semantically (frame obligations at every return,
+	// which know about freshly allocated objects); only ghost state is checked here
 	for g := range e.ghostW[f] {
 		if !decl["g."+g] {
 			bad = append(bad, "g."+g)
